@@ -626,6 +626,33 @@ async fn run_sequence(ops: &[Op], probe_names: &[&'static str], ev: &mut Evidenc
 		ev.class("model_states", &models[0]);
 	}
 
+	// the final module behind a real server, over HTTP (calls only): a bound name - method, subscribe or unsubscribe name,
+	// alias - is never answered "method not found", an unbound one always
+	if violation.is_none() && !cfg!(miri) {
+		let srv = jrv::memsrv::MemServer::new(jsonrpsee_server::ServerConfig::default(), mods[0].clone());
+		for name in probe_names {
+			let body = format!("{{\"jsonrpc\":\"2.0\",\"id\":1,\"method\":\"{name}\",\"params\":[0]}}");
+			let rep = srv.http_post(body.into_bytes()).await;
+			let code = serde_json::from_slice::<Value>(&rep.body).ok().and_then(|v| v["error"]["code"].as_i64());
+			let bound = models[0].contains_key(name);
+			ev.count("http_probes_of_the_final_module", 1);
+			if (code == Some(-32601)) == bound {
+				let what = match models[0].get(name) {
+					Some(Bound::Method(_)) => "method",
+					Some(Bound::Sub(_)) => "subscribe-name",
+					Some(Bound::Unsub(_)) => "unsubscribe-name",
+					None => "unbound",
+				};
+				violation = Some(Violation::new(
+					format!("method-not-found-iff-unbound/http/{what}"),
+					format!("over HTTP the name `{name}` ({what}) was answered with status {} code {code:?}", rep.status),
+					json!({"ops": ops, "probe_names": probe_names, "models_expected_after_step": models.iter().map(model_json).collect::<Vec<_>>(), "history": log}),
+				));
+				break;
+			}
+		}
+	}
+
 	ev.eval();
 	ev.count("ops", st.ops);
 	ev.count("calls", probe.calls);
